@@ -66,12 +66,15 @@ def make_cb(it, prog, cls, log=False, **over):
 def gate_decisions(p):
     """Outcomes of decisions whose condition is  epoch % period == 0."""
     wants = [T.app("cmp_Eq", T.app("mod", T.sym(e), T.sym("period")), T.ZERO) for e in ("epoch", "epoch2")]
+    wants_neg = [T.app("cmp_NotEq", T.app("mod", T.sym(e), T.sym("period")), T.ZERO) for e in ("epoch", "epoch2")]
     out = []
     for c in p.conds:
         v = c[3] if len(c) > 3 else None
         t = getattr(v, "term", None)
         if t is not None and t in wants:
             out.append(c[2])
+        elif t is not None and t in wants_neg:
+            out.append(not c[2])
     return out
 
 
